@@ -121,7 +121,8 @@ theorem inv_work_upfilter (c : Cfg) (ar aq : Nat) (s : S) (h : Inv c ar aq s) (h
   have hcl := inv_not_cleaned h hrun
   have hupp : upPhase s.phase = true := by simp [hp, upPhase]
   obtain ⟨hlc, hresp, hur, htm, hrst, _, _⟩ := h.k15 hcl hupp
-  obtain ⟨hsr, hdir⟩ := h.k7 hcl
+  have hsr := (h.k7 hcl).1
+  have hdir : s.direct = false := not_direct_of_phase h.k7 hcl (by rw [hp]; decide)
   have hpd : s.procDone = false := by
     cases hh : s.procDone with
     | false => rfl
@@ -136,7 +137,7 @@ theorem inv_work_upfilter (c : Cfg) (ar aq : Nat) (s : S) (h : Inv c ar aq s) (h
     rw [show (false || s.procDone) = false from by simp [hpd]]
     simp only [Bool.false_eq_true, if_false]
     obtain ⟨k0, k1, k2, k3, k4, k5, k6, k7, k8, k9, k10, k11, k12, k13, k14, k15, k16, k17, k18, k19, k20, k21, k22, k23, k24, k25, k26, k27, k28, k29, k30, k31, k32, k33⟩ := h
-    refine ⟨k0, k1, k2, k3, k4, k5, k6, k7, ?_, k9, k10, k11, k12, k13, ?_, ?_, ?_, ?_, ?_, ?_, k20, k21, k22, ?_, k24, k25, ?_, ?_, k28, ?_, ?_, ?_, ?_, (fun hh => absurd hh (by simp [hcl]))⟩
+    refine ⟨k0, k1, k2, k3, k4, k5, k6, k7_intro hsr hdir, ?_, k9, k10, k11, k12, k13, ?_, ?_, ?_, ?_, ?_, ?_, k20, k21, k22, ?_, k24, k25, ?_, ?_, k28, ?_, ?_, ?_, ?_, (fun hh => absurd hh (by simp [hcl]))⟩
     · intro _; exact ⟨(k8 hcl).1, Or.inr (Or.inl (by simp [hp, Phase.next, upPhase]))⟩
     · rw [K14, streamsOk_iff] at k14 ⊢
       refine ⟨k14.1, ?_, ?_⟩
